@@ -180,6 +180,12 @@ def _run_scene(ctx, d):
     # snapshot of the object lists (identity): the pre-fix manager overwrote FrameGroundTruth.objects (C13's finding)
     gt_lists = [list(fr.objects) for fr in gt_frames]
     est_lists, results = [], []
+    crits, pfs = None, None
+    with ctx.under_test("CriticalObjectFilterConfig / PerceptionPassFailConfig"):
+        crits = [MG.crit_config(mgr, d, f) for f in d["frames"]]  # all prepared up front (see mgrlib.run_case)
+        pfs = [MG.pf_config(mgr, d, f) for f in d["frames"]]
+    if crits is None or pfs is None:
+        return None
     for i, f in enumerate(d["frames"]):
         t = D.T0 + i * 100_000
         ests = D.objs3d(f["est"], d["frame"], f["ego"], t)
@@ -191,8 +197,8 @@ def _run_scene(ctx, d):
                 unix_time=t,
                 ground_truth_now_frame=now,
                 estimated_objects=list(ests),
-                critical_object_filter_config=MG.crit_config(mgr, d, f),
-                frame_pass_fail_config=MG.pf_config(mgr, d, f),
+                critical_object_filter_config=crits[i],
+                frame_pass_fail_config=pfs[i],
             )
         if res is None:
             return None
